@@ -175,6 +175,28 @@ func rulesC13(p *Prog, r *Report) {
 				r.Fail("R13.2", construct, fmt.Sprintf("the amount moved %s the collector %v is not the amount booked on the net fees %v", dir, uniq(moved), uniq(booked)), p.instrPos(c), nil)
 				continue
 			}
+			// asset agreement: the net fees are kept per (app, asset); the asset id booked must be the asset of
+			// the coin moved. Decidable where the record names both sides (DebtToken/DebtAssetId,
+			// CollateralToken/CollateralAssetId, Inflow/AssetIn, Outflow/AssetOut).
+			if side := coinSide(p, be.Coins); side != "" {
+				mismatch := ""
+				for _, c2 := range calls(fn) {
+					if !p.callIsFn(c2, dec, inc, getAmt, updC) {
+						continue
+					}
+					args := callArgs(c2)
+					if len(args) < 3 {
+						continue
+					}
+					if as := idSide(p, args[2]); as != "" && as != side {
+						mismatch = fmt.Sprintf("coin is the %s token, booked under the %s asset id (%s)", side, as, p.instrPos(c2))
+					}
+				}
+				if mismatch != "" {
+					r.Fail("R13.2", construct+" asset", "the recorded net fees are changed under a different asset than the coin that moved: "+mismatch, p.instrPos(c), nil)
+					continue
+				}
+			}
 			r.OK("R13.2", construct, "movement needs "+g.Name+" for the same amount", p.instrPos(c))
 		}
 	}
@@ -228,4 +250,66 @@ func rulesC13(p *Prog, r *Report) {
 func firstAmts(p *Prog, coins ssa.Value) []ssa.Value {
 	a, _ := p.coinParts(coins)
 	return a
+}
+
+// coinSide: "debt" / "collateral" when the coin's denomination comes from a record field naming that side.
+func coinSide(p *Prog, coins ssa.Value) string {
+	side := ""
+	_, denoms := p.coinParts(coins)
+	vals := denoms
+	if len(vals) == 0 {
+		vals = []ssa.Value{coins}
+	}
+	for _, v := range vals {
+		for _, o := range p.DeepOrigins(v) {
+			for _, f := range o.Path {
+				s := sideOfName(f)
+				if s == "" {
+					continue
+				}
+				if side != "" && side != s {
+					return ""
+				}
+				side = s
+			}
+		}
+	}
+	return side
+}
+
+func idSide(p *Prog, v ssa.Value) string {
+	side := ""
+	for _, o := range p.Origins(v) {
+		if len(o.Path) == 0 {
+			return ""
+		}
+		s := sideOfName(o.Path[len(o.Path)-1])
+		if s == "" {
+			return ""
+		}
+		if side != "" && side != s {
+			return ""
+		}
+		side = s
+	}
+	return side
+}
+
+func sideOfName(f string) string {
+	toks := camelTokens(f)
+	has := func(w string) bool {
+		for _, t := range toks {
+			if t == w {
+				return true
+			}
+		}
+		return false
+	}
+	switch {
+	case has("debt") || has("inflow"):
+		return "debt"
+	case has("collateral") || has("outflow"):
+		return "collateral"
+	}
+	return ""
 }
